@@ -211,7 +211,7 @@ def ctor (s : DState) (op : String) (args : List Nat) (_raw : List String) : Opt
     | [_, p, _, _] => match parseFloat p with
       | some p =>
         let rng : Rng := { state := UInt64.ofNat seed }
-        let pr := if which = 4 then Sizing.cuckooParams 4 0.95 p n else Sizing.cuckooParams 8 0.98 p n
+        let pr := if which = 4 then Sizing.cuckooParams 4 (0.95 : Float) p n else Sizing.cuckooParams 8 (0.98 : Float) p n
         match pr with
         | some (bs, nb, lf) => match Cuckoo.new rng bs nb lf with
           | some f => some (some (.cuckoo f s.bh), s!"ok {bs} {nb} {lf}")
